@@ -2,6 +2,7 @@ package main
 
 import (
 	"fmt"
+	"sort"
 	"strings"
 	"time"
 
@@ -18,6 +19,58 @@ func init() {
 	observers["C11.cal"] = obsC11Cal
 	observers["C11.clip"] = obsC11Clip
 	gens["C11clip"] = genC11Clip
+	observers["C11.cols"] = obsC11Cols
+	gens["C11cols"] = genC11Cols
+}
+
+// op C11.cols: the columns of `knut balance --csv` (the header of the report): they are the ends of the periods that
+// partition the requested window clipped to the JOURNAL'S period, which journal.Builder derives from the directives
+// as they arrive.  input "<balance cfg> | <journal>"  observed "d1,d2,..." | ERR ...
+func obsC11Cols(in string) string {
+	out := obsBalance(in)
+	if !strings.HasPrefix(out, "OK ") {
+		return out
+	}
+	head := strings.SplitN(out[3:], "\\n", 2)[0] // the first line of the escaped stdout (esc writes a newline as \n)
+	var ds []string
+	for _, x := range strings.Split(head, ",") { // "Account,[Comm,]date,date,..."
+		if len(x) == 10 && x[4] == '-' && x[7] == '-' {
+			ds = append(ds, x)
+		}
+	}
+	return "OK " + strings.Join(ds, ",")
+}
+
+// small journals in file orders that matter to a running minimum/maximum: as generated (shuffled), oldest first,
+// newest first (seeded change C11e-builder-minmax-switch: the first transaction added only set the minimum, so a
+// journal whose first transaction is its latest lost its last columns), a single transaction; windows inside,
+// beyond and across the journal's period
+func genC11Cols(out *caseWriter, seed uint64, n int, _ []string) error {
+	var items []caseIn
+	for i := 0; i < n; i++ {
+		r := newRng(seed, "C11cols", i)
+		o := defaultOpts(r)
+		o.accruals, o.perf, o.assertions, o.closes = false, false, false, false
+		o.nTxn = r.rangeInt(1, 6)
+		o.prices = r.chance(50)
+		j := genJournal(r, o)
+		switch r.intn(4) {
+		case 0:
+			sort.SliceStable(j, func(a, b int) bool { return j[a].Date < j[b].Date })
+		case 1, 2:
+			sort.SliceStable(j, func(a, b int) bool { return j[a].Date > j[b].Date })
+		}
+		cfg := BalCfg{From: "-", To: dateStr(o.startDate.AddDate(0, 0, o.days+r.rangeInt(-10, 40))), Interval: pick(r, []string{"once", "daily", "weekly", "monthly", "quarterly", "yearly"}), CSV: true, Alpha: true}
+		if r.chance(40) {
+			cfg.From = dateStr(o.startDate.AddDate(0, 0, r.rangeInt(-30, o.days)))
+		}
+		if r.chance(30) {
+			cfg.Last = r.rangeInt(1, 4)
+		}
+		items = append(items, caseIn{fmt.Sprintf("C11cols-%d-%d", seed, i), "C11.cols", cfg.Enc() + " | " + j.Enc()})
+	}
+	out.addBatch(items)
+	return nil
 }
 
 // input "<s1> <e1> <s2> <e2> <iv> <last>": the requested period (--from/--to; "-" start = the zero time, no --from)
